@@ -180,4 +180,26 @@ def _structure(
             return [res_node]
 
     traverse(fis)
+    # The implicit edges are hints about the order of the calls, collected one function at a time: two
+    # functions may reach the same nodes in opposite orders. The hints that would close a cycle are dropped
+    # (the other edges are real dependencies, which cannot be circular).
+    for (k, e) in list(deps.items()):
+        if e.edge_type == ImplicitEdge and _reaches(deps, k[1], k[0]):
+            del deps[k]
     return Graph(list(nodes.values()), list(deps.values()))
+
+
+def _reaches(
+    deps: "OrderedDict[Tuple[PyHash, PyHash], Edge]", start: PyHash, end: PyHash
+) -> bool:
+    """True if there is a path from start to end following the edges."""
+    seen: Set[PyHash] = set()
+    todo = [start]
+    while todo:
+        x = todo.pop()
+        if x == end:
+            return True
+        if x not in seen:
+            seen.add(x)
+            todo += [k2 for (k1, k2) in deps if k1 == x]
+    return False
